@@ -114,6 +114,7 @@ func corruptions(b []byte, dense bool) [][]byte {
 }
 
 func run(c *vf.Ctx) {
+	c.RaceCompanion("the nacl functions", "golang.org/x/crypto/nacl/", "golang.org/x/crypto/salsa20/", "golang.org/x/crypto/curve25519.", "golang.org/x/crypto/internal/poly1305.")
 	c.Rule("full grid: secretbox {key classes} x {nonce classes} x every message length 0..L plus 1000,2000,4096,16384 x out-argument mode {nil, prefix, prefix+spare capacity, prefix+EXACT capacity, prefix+capacity one short} (spare capacity holds old bytes); " +
 		"every argument (key, nonce, key pair, message, box) is a private copy that must be unchanged after the call and is wiped before the result is compared; " +
 		"array arguments that are the SAME array: box.Precompute with sharedKey==privateKey, sharedKey==peersPublicKey, peersPublicKey==privateKey and all three, for all ordered key-pair combinations, every special peer key and in place on GenerateKey results; " +
